@@ -229,3 +229,5 @@ m("C14-revert-D27-none-valued-attributes-not-left-out", "C14", "import_export/ge
   "    if any(value is None for attrs in attr_dicts for value in attrs.values()):", "    if False:")
 m("C16-D27-none-valued-attributes-stripped-on-the-live-graph", "C16", "import_export/geff/_export.py",
   "        if graph is tracks.graph:\n            graph = graph.copy()\n", "")
+m("C14-revert-D29-frame-index-scaled-by-time-scale", "C14", "import_export/_validation.py",
+  "    scale = [1.0, *scale[1:]]\n", "")
